@@ -20,8 +20,11 @@ package api
 //     x                           the client aborts the request
 //     f                           the client reads until the handler ends the request (used after
 //                                 the message that ends the client's session)
+//   o r x f may carry "@<c>": the step of client c, which reads for session c through its own
+//   request (default c = 1); several clients have their streams open at the same time.
 //   result: gm {m=<batch id|->|D=<batch id|->|o=ok|o=http<code>|r=<msgs|->[@<marker id>][!timeout|!closed]|x=ok|f=<msgs|->[!timeout]}*
-//              last=<id>.<reply> S=<id>=<reply>/<hex|->/<rcpts|->{,..}{;..}
+//              last=<id>.<reply of client 1> L=<c>:<id>.<reply>{,..} G=ok|changed:<id> S=<id>=<reply>/<hex|->/<rcpts|->{,..}{;..}
+//   G: after all steps OutputStream.Get of every batch still returns exactly what was added
 // The python side rebuilds the output stream from S, runs the Out/Resume model on it and compares.
 
 import (
@@ -221,41 +224,55 @@ func verifGmRunCase(f []string, tmp string, node *raft.Raft) (res string) {
 	}
 
 	out := []string{"gm"}
-	last := "0.0"
-	var w *verifGmWriter
-	var cancel context.CancelFunc
-	var done chan struct{}
-	closeConn := func() {
-		if w == nil {
+	// one GetMessages client per session; client c reads for session c
+	type client struct {
+		last        string
+		w           *verifGmWriter
+		cancel      context.CancelFunc
+		done        chan struct{}
+		lastFlushes int64
+	}
+	clients := map[uint64]*client{}
+	var order []uint64
+	cl := func(c uint64) *client {
+		if x, ok := clients[c]; ok {
+			return x
+		}
+		x := &client{last: "0.0"}
+		clients[c] = x
+		order = append(order, c)
+		return x
+	}
+	closeConn := func(x *client) {
+		if x.w == nil {
 			return
 		}
-		cancel()
+		x.cancel()
 		select {
-		case <-done:
+		case <-x.done:
 		case <-time.After(5 * time.Second):
 		}
-		w = nil
+		x.w = nil
 	}
 	const wait = 3 * time.Second
-	lastFlushes := int64(0)
 	// read until stop(msg) says so; returns messages, and "" | "!timeout" | "!closed"
-	read := func(stop func(robust.Message, int) bool) ([]robust.Message, string) {
+	read := func(x *client, stop func(robust.Message, int) bool) ([]robust.Message, string) {
 		var got []robust.Message
-		if w == nil {
+		if x.w == nil {
 			return got, "!closed"
 		}
 		deadline := time.After(wait)
 		for {
 			select {
-			case l := <-w.lines:
+			case l := <-x.w.lines:
 				m := l.msg
-				lastFlushes = l.flushes
+				x.lastFlushes = l.flushes
 				got = append(got, m)
-				last = fmt.Sprintf("%d.%d", m.Id.Id, m.Id.Reply)
+				x.last = fmt.Sprintf("%d.%d", m.Id.Id, m.Id.Reply)
 				if stop(m, len(got)) {
 					return got, ""
 				}
-			case <-done:
+			case <-x.done:
 				// the handler has returned; whatever it wrote has been taken already
 				return got, "!closed"
 			case <-deadline:
@@ -265,6 +282,11 @@ func verifGmRunCase(f []string, tmp string, node *raft.Raft) (res string) {
 	}
 
 	for _, tok := range f[2:] {
+		c := uint64(1)
+		if at := strings.LastIndex(tok, "@"); at >= 0 {
+			c, _ = strconv.ParseUint(tok[at+1:], 10, 64)
+			tok = tok[:at]
+		}
 		p := strings.SplitN(tok, ":", 3)
 		switch p[0] {
 		case "m", "D":
@@ -276,74 +298,111 @@ func verifGmRunCase(f []string, tmp string, node *raft.Raft) (res string) {
 			}
 			out = append(out, p[0]+"="+apply(typ, s, string(data)))
 		case "o":
-			closeConn()
-			ctx, c := context.WithCancel(context.Background())
-			cancel = c
-			w = &verifGmWriter{ctx: ctx, hdr: http.Header{}, lines: make(chan verifGmLine), status: make(chan int, 1)}
-			done = make(chan struct{})
-			req := httptest.NewRequest("GET", "/robustirc/v1/1/messages?lastseen="+last, nil).WithContext(ctx)
+			x := cl(c)
+			closeConn(x)
+			ctx, cf := context.WithCancel(context.Background())
+			x.cancel = cf
+			x.w = &verifGmWriter{ctx: ctx, hdr: http.Header{}, lines: make(chan verifGmLine), status: make(chan int, 1)}
+			x.done = make(chan struct{})
+			req := httptest.NewRequest("GET", fmt.Sprintf("/robustirc/v1/%d/messages?lastseen=%s", c, x.last), nil).WithContext(ctx)
 			req.Header.Set("X-Session-Auth", "auth")
 			go func(w *verifGmWriter, done chan struct{}) {
 				defer close(done)
 				defer func() { recover() }()
 				h.DispatchPublic(w, req)
-			}(w, done)
+			}(x.w, x.done)
 			select {
-			case code := <-w.status:
+			case code := <-x.w.status:
 				if code == 200 {
 					out = append(out, "o=ok")
 				} else {
 					out = append(out, fmt.Sprintf("o=http%d", code))
 				}
-			case <-done:
+			case <-x.done:
 				out = append(out, "o=returned")
 			case <-time.After(wait):
 				out = append(out, "o=!timeout")
 			}
 		case "r":
+			x := cl(c)
 			k, _ := strconv.Atoi(p[1])
 			if k > 0 {
-				got, mark := read(func(_ robust.Message, n int) bool { return n >= k })
+				got, mark := read(x, func(_ robust.Message, n int) bool { return n >= k })
 				out = append(out, "r="+verifGmShow(got)+mark)
 				break
 			}
 			id := next
 			next++
-			marker := []outputstream.Message{{Id: robust.Id{Id: id, Reply: 1}, Data: fmt.Sprintf("MARK %d", id), InterestingFor: map[uint64]bool{1: true}}}
+			marker := []outputstream.Message{{Id: robust.Id{Id: id, Reply: 1}, Data: fmt.Sprintf("MARK %d", id), InterestingFor: map[uint64]bool{c: true}}}
 			if err := o.Add(marker); err != nil {
 				panic(err)
 			}
 			record(marker)
-			got, mark := read(func(m robust.Message, _ int) bool { return m.Id.Id == id })
+			got, mark := read(x, func(m robust.Message, _ int) bool { return m.Id.Id == id })
 			if mark == "" {
 				// the handler finishes the marker batch (its session / partition checks) and then
 				// flushes, at once or from its 10 ms timer: wait for that Flush, so that the next
 				// operation is not applied while the handler is still inside the marker batch
 				deadline := time.Now().Add(2 * time.Second)
-				for atomic.LoadInt64(&w.flushes) <= lastFlushes && time.Now().Before(deadline) {
+				for atomic.LoadInt64(&x.w.flushes) <= x.lastFlushes && time.Now().Before(deadline) {
 					time.Sleep(200 * time.Microsecond)
 				}
 			}
 			out = append(out, fmt.Sprintf("r=%s@%d%s", verifGmShow(got), id, mark))
 		case "f":
-			got, mark := read(func(robust.Message, int) bool { return false })
+			got, mark := read(cl(c), func(robust.Message, int) bool { return false })
 			if mark == "!closed" {
 				mark = ""
 			}
 			out = append(out, "f="+verifGmShow(got)+mark)
 		case "x":
-			closeConn()
+			closeConn(cl(c))
 			out = append(out, "x=ok")
 		default:
 			out = append(out, p[0]+"=unknown-step")
 		}
 	}
-	closeConn()
+	for _, x := range clients {
+		closeConn(x)
+	}
+	// the stream itself must be what was added: a reader must not have changed a (cached) batch
+	changed := "ok"
+	for _, b := range dump {
+		eq := strings.Index(b, "=")
+		id, _ := strconv.ParseUint(b[:eq], 10, 64)
+		msgs, ok := o.Get(robust.Id{Id: id})
+		now := "missing"
+		if ok {
+			saved := dump
+			dump = nil
+			record(msgs)
+			if len(dump) == 1 {
+				now = dump[0]
+			}
+			dump = saved
+		}
+		if now != b {
+			changed = fmt.Sprintf("changed:%d", id)
+			break
+		}
+	}
 	d := "-"
 	if len(dump) > 0 {
 		d = strings.Join(dump, ";")
 	}
-	out = append(out, "last="+last, "S="+d)
+	var ls []string
+	for _, c := range order {
+		ls = append(ls, fmt.Sprintf("%d:%s", c, clients[c].last))
+	}
+	l1 := "0.0"
+	if x, ok := clients[1]; ok {
+		l1 = x.last
+	}
+	lall := "-"
+	if len(ls) > 0 {
+		lall = strings.Join(ls, ",")
+	}
+	out = append(out, "last="+l1, "L="+lall, "G="+changed, "S="+d)
 	return strings.Join(out, " ")
 }
 
